@@ -19,7 +19,8 @@
   What is proved.
   (1) `C05_no_silent_hang_batch_simpy`: after some number of kernel steps the run has raised, or it is
       at `is_finished()` with nothing raised.
-  (2) `C05_no_raise_batch_simpy`: under H1 and H2 no block ever raises.  The raise sites of the
+  (2) `C05_no_raise_batch_simpy_noH2`: under H1 no block ever raises (F14: H2 is no longer needed;
+      `C05_no_raise_batch_simpy`, `C05_terminates_batch_simpy` keep the statements with H2).  The raise sites of the
       scheduler side under BatchProcessing: `_max_resource_provision` (KeyError / RuntimeError /
       ZeroDivisionError: excluded by `Feasible`), `provision_batch_resources` (IndexError /
       RuntimeError: the size asked for is `≤ available`, the machines are taken from the available
@@ -27,7 +28,7 @@
       order its first block finds the machine idle in the reservation of its observation
       (`C05_allocTask_on_reserved_simpy`) — BatchProcessing never leaves a proposal behind
       (`Sys.lb_pcs_nil`), so every proposal is for a machine idle in the reservation at that instant.
-  (3) `C05_terminates_batch_simpy` — THE TARGET: ∃ n, after n kernel steps
+  (3) `C05_terminates_batch_simpy_noH2` — THE TARGET: ∃ n, after n kernel steps
       `isFinished = true ∧ crashed = none`.
   (4) stage lemmas: `C05_allocTasks_progress_batch_partial` (a block of `allocate_tasks` in a quiet
       state removes the observation, or starts a task, or — no reservation held, none can be made —
@@ -104,6 +105,28 @@ theorem C05_terminates_batch_simpy_of_noRaise (env : SimEnv) (s0 : Sys) (hw : Sy
 
 /-! ### (2), (3) no block raises; termination -/
 
+/-- F14 — H2 (`OneAdmission`) dropped, the repaired admission test makes it unnecessary.  **No block raises**: BatchProcessing, batch planning, well-formed feasible configuration (`hmin` for
+a split), initially empty full-free buffer, H1 (no tiering);
+any environment. -/
+theorem C05_no_raise_batch_simpy_noH2 (env : SimEnv) (s0 : Sys) (hw : Sys.WFConfig s0)
+    (hfe : Sys.Feasible s0)
+    (hb0 : s0.buf.hot.stored = [] ∧ s0.buf.hot.scheduled = [] ∧ s0.buf.hot.finished = [] ∧
+      s0.buf.cold.stored = [])
+    (hfull : s0.buf.size = [] ∧ s0.buf.hot.cur = s0.buf.hot.total ∧ s0.buf.cold.cur = s0.buf.cold.total)
+    (hct : s0.buf.cold.transfer = none) (hh0 : s0.halted = false)
+    (hH1 : Sys.NoTierCfg s0)
+    {parts minPer : Nat} {split : Option (List (Oid × Nat × Nat))}
+    (halg : s0.alg = .batch parts minPer split)
+    (hmin : ∀ sp, split = some sp → minPer ≤ s0.machines.length)
+    (hstat : s0.staticPlan = false) (htopo : ∀ o ∈ s0.obs, IsTopo o.wf) (n : Nat) :
+    (ilSimSteps env n (SimState.start s0)).st.crashed = none := by
+  have := live_noRaise_B (env := env)
+    ⟨hw, hfe, hb0, hfull, hct, hH1, ⟨parts, minPer, split, halg⟩, hstat, htopo, hh0,
+      Sys.batchMinOk_of halg hmin⟩ n
+  rw [simAt_eq_ilSimSteps] at this
+  exact this
+
+-- F14: H2 is no longer needed (`…_noH2` above); statement kept verbatim
 /-- **No block raises**: BatchProcessing, batch planning, well-formed feasible configuration (`hmin` for
 a split), initially empty full-free buffer, H1 (no tiering), H2 (one admission per telescope block);
 any environment. -/
@@ -119,12 +142,34 @@ theorem C05_no_raise_batch_simpy (env : SimEnv) (s0 : Sys) (hw : Sys.WFConfig s0
     (hmin : ∀ sp, split = some sp → minPer ≤ s0.machines.length)
     (hstat : s0.staticPlan = false) (htopo : ∀ o ∈ s0.obs, IsTopo o.wf) (n : Nat) :
     (ilSimSteps env n (SimState.start s0)).st.crashed = none := by
-  have := live_noRaise_B (env := env)
-    ⟨hw, hfe, hb0, hfull, hct, hH1, hH2, ⟨parts, minPer, split, halg⟩, hstat, htopo, hh0,
-      Sys.batchMinOk_of halg hmin⟩ n
-  rw [simAt_eq_ilSimSteps] at this
-  exact this
+  have _ := hH2
+  exact C05_no_raise_batch_simpy_noH2 env s0 hw hfe hb0 hfull hct hh0 hH1 halg hmin hstat htopo n
 
+/-- F14 — H2 (`OneAdmission`) dropped, the repaired admission test makes it unnecessary.  **`C05_terminates_batch_simpy`** — THE TARGET.  For `s0.alg = .batch parts minPer split`,
+`WFConfig`, `Feasible`, initial buffers empty / full-free (`hb0`, `hfull`), `cold.transfer = none`,
+`halted = false`, H1 (`NoTierCfg`), H4 (`IsTopo`), batch planning, `hmin` (with a
+split the configured minimum does not exceed the number of machines), any `env`: there is `n` such that
+the state after `n` kernel steps has `isFinished = true ∧ crashed = none` (and the run up to there is
+one uninterrupted `env.run`). -/
+theorem C05_terminates_batch_simpy_noH2 (env : SimEnv) (s0 : Sys) (hw : Sys.WFConfig s0)
+    (hfe : Sys.Feasible s0)
+    (hb0 : s0.buf.hot.stored = [] ∧ s0.buf.hot.scheduled = [] ∧ s0.buf.hot.finished = [] ∧
+      s0.buf.cold.stored = [])
+    (hfull : s0.buf.size = [] ∧ s0.buf.hot.cur = s0.buf.hot.total ∧ s0.buf.cold.cur = s0.buf.cold.total)
+    (hct : s0.buf.cold.transfer = none) (hh0 : s0.halted = false)
+    (hH1 : Sys.NoTierCfg s0)
+    {parts minPer : Nat} {split : Option (List (Oid × Nat × Nat))}
+    (halg : s0.alg = .batch parts minPer split)
+    (hmin : ∀ sp, split = some sp → minPer ≤ s0.machines.length)
+    (hstat : s0.staticPlan = false) (htopo : ∀ o ∈ s0.obs, IsTopo o.wf) :
+    ∃ n, (ilSimSteps env n (SimState.start s0)).st.isFinished = true ∧
+      (ilSimSteps env n (SimState.start s0)).st.crashed = none ∧
+      SimRun env s0 (ilSimSteps env n (SimState.start s0)) :=
+  live_terminates_cfg_B
+    ⟨hw, hfe, hb0, hfull, hct, hH1, ⟨parts, minPer, split, halg⟩, hstat, htopo, hh0,
+      Sys.batchMinOk_of halg hmin⟩
+
+-- F14: H2 is no longer needed (`…_noH2` above); statement kept verbatim
 /-- **`C05_terminates_batch_simpy`** — THE TARGET.  For `s0.alg = .batch parts minPer split`,
 `WFConfig`, `Feasible`, initial buffers empty / full-free (`hb0`, `hfull`), `cold.transfer = none`,
 `halted = false`, H1 (`NoTierCfg`), H2 (`OneAdmission`), H4 (`IsTopo`), batch planning, `hmin` (with a
@@ -144,10 +189,9 @@ theorem C05_terminates_batch_simpy (env : SimEnv) (s0 : Sys) (hw : Sys.WFConfig 
     (hstat : s0.staticPlan = false) (htopo : ∀ o ∈ s0.obs, IsTopo o.wf) :
     ∃ n, (ilSimSteps env n (SimState.start s0)).st.isFinished = true ∧
       (ilSimSteps env n (SimState.start s0)).st.crashed = none ∧
-      SimRun env s0 (ilSimSteps env n (SimState.start s0)) :=
-  live_terminates_cfg_B
-    ⟨hw, hfe, hb0, hfull, hct, hH1, hH2, ⟨parts, minPer, split, halg⟩, hstat, htopo, hh0,
-      Sys.batchMinOk_of halg hmin⟩
+      SimRun env s0 (ilSimSteps env n (SimState.start s0)) := by
+  have _ := hH2
+  exact C05_terminates_batch_simpy_noH2 env s0 hw hfe hb0 hfull hct hh0 hH1 halg hmin hstat htopo
 
 /-- the order fact behind `allocate_task_to_cluster` not raising under BatchProcessing: when the first
 block of a scheduler-side allocation process runs, its machine is idle in the reservation of the
